@@ -81,3 +81,11 @@ shape("Sequence",
 SHAPES["Sequence"].fields["$has__measurement"] = ("bool", True)
 SHAPES["_Call"].ctor_fields = ["name", "args", "kwargs"]
 declare_heap_fields()
+
+# --- waveforms (C16) -----------------------------------------------------------
+shape("CompositeWaveform", bases=("Waveform",), _waveforms=("list", ("ref", "Waveform")))
+shape("CustomWaveform", bases=("Waveform",))
+shape("BlackmanWaveform", bases=("Waveform",), _area="real")
+shape("KaiserWaveform", bases=("Waveform",), _area="real", _beta="real")
+shape("InterpolatedWaveform", bases=("Waveform",))
+declare_heap_fields()
